@@ -36,15 +36,13 @@ theorem step_move (T : Tables) (R : RenderCfg) (g : Gen) (op : Op) :
     · simp only [step, he]; exact ⟨.keep (update_ok hu).1, trivial⟩
     · simp only [step, he]; exact ⟨.keep rfl, trivial⟩
   | tag name bnd kwargs =>
-    rcases step_tag_cases T R g name bnd kwargs with ⟨s, g', hc, hst⟩ | ⟨e, hst⟩
-    · obtain ⟨hx, hctx⟩ := callTag_ctx hc
-      rw [hst]
-      refine ⟨?_, hx⟩
-      rcases hctx with heq | ⟨n, _, _, hs⟩
-      · exact .keep (by rw [heq])
-      · obtain ⟨e, _⟩ := setItem_ok hs
-        exact .keep (by rw [e])
-    · rw [hst]; exact ⟨.keep rfl, rfl⟩
+    obtain ⟨g', o, hst, hx, hctx⟩ := step_tag_effect T R g name bnd kwargs
+    rw [hst]
+    refine ⟨?_, hx⟩
+    rcases hctx with heq | ⟨n, _, _, hs⟩
+    · exact .keep (by rw [heq])
+    · obtain ⟨e, _⟩ := setItem_ok hs
+      exact .keep (by rw [e])
 
 theorem getLast?_cons_of_ne_nil {α} (a : α) (l : List α) (h : l ≠ []) :
     (a :: l).getLast? = l.getLast? := by
